@@ -628,6 +628,15 @@ func (h *httpRun) batchSubscribe() {
 			cvs = append(cvs, cv)
 		}
 		body := refctl.PutBody(cvs...)
+		// other ways a controller may spell "events on": an accessory that takes one of them for a subscription must
+		// refuse it like "ev":true on a characteristic without ev; one that ignores it may answer anything; in no
+		// case may an event follow
+		evSpelling := []string{"true", "true", "1", "1.0", `"true"`, `"1"`, "[true]"}[h.rnd.Intn(7)]
+		strict := evSpelling == "true"
+		if !strict {
+			body = []byte(strings.ReplaceAll(string(body), `"ev":true`, `"ev":`+evSpelling))
+		}
+		r.Distinct("ev_spelling", evSpelling)
 		m, err := h.S.do("PUT", "/characteristics", body)
 		if err != nil {
 			continue
@@ -652,7 +661,10 @@ func (h *httpRun) batchSubscribe() {
 					rejected = true
 				}
 			}
-			if !rejected {
+			if !rejected && !strict {
+				r.Count("http_odd_ev_spelling_not_rejected(allowed if ignored)", 1)
+			}
+			if !rejected && strict {
 				violate("http:event:no-ev:subscription-not-rejected", fmt.Sprintf("a PUT asking for events on %d characteristics was answered %s: no non-zero status for %s (perms %v)", len(group), msgText(m), e.where(), e.c.Perms),
 					e.s.Name, e.witness(map[string]interface{}{"request": trunc(string(body), 600), "response": msgText(m)}))
 			}
